@@ -121,6 +121,41 @@ def add_two_entry_cycle(rng, spec):
     return spec
 
 
+def add_reconvergent(rng, spec):
+    """Motif: reconvergent derivation paths A -> P -> K, A -> Q -> K with a nested choice below K, and two further options
+    (of other choices) that enter the diamond at K, P or Q. Acyclic. Generic shape for traversal caches keyed by node:
+    K is reached twice within one walk, and the intermediate nodes are later reached from other entries."""
+    spec = copy.deepcopy(spec)
+    base = max(int(n[1:]) for n in spec['nodes']) + 1
+    names = [f'N{base + i}' for i in range(12)]
+    a, pp, q, k, k1, b, d, alt1, alt2, alt3, x, y = names
+    spec['nodes'] += names
+    edges = [[a, pp], [a, q], [pp, k], [q, k], [b, rng.choice([k, k, pp, q])], [d, rng.choice([q, q, pp, k])]]
+    below = k
+    if rng.random() < 0.6:
+        edges.append([k, k1])
+        below = k1
+    rng.shuffle(edges)
+    spec['derive'] += edges
+    n = len(spec['sel'])
+    host = spec['start'][0]
+    host2 = host
+    if rng.random() < 0.5:  # the third choice sits on another permanent node
+        host2 = f'N{base + 12}'
+        spec['nodes'].append(host2)
+        spec['derive'].append([host, host2])
+    first = [b, a, alt1]
+    rng.shuffle(first)
+    spec['sel'].append([f'R{n}', host, first])
+    spec['sel'].append([f'R{n + 1}', below, [x, y]])
+    third = [d, alt2]
+    rng.shuffle(third)
+    spec['sel'].append([f'R{n + 2}', host2, third])
+    if alt3 not in [o for c in spec['sel'] for o in c[2]]:
+        spec['nodes'].remove(alt3)
+    return spec
+
+
 def _ancestors(node, derive, sel):
     """Nodes from which `node` is reachable over derivation edges and origin->option edges."""
     preds = {}
